@@ -177,10 +177,38 @@ class DlMalformed(Stream):
         return L.harness_ok(c, o)
 
 
+class Concurrent(Stream):
+    """8 UEs with different algorithm pairs receive and recover their messages at once: each recovers what it recovers alone"""
+    name = "concurrent"
+    sub = "conc"
+    model_check = None
+    spec_check = None
+    requires = []
+
+    def generate(self, rng, tier):
+        return [{"family": "nas_unprotect", "goroutines": 8, "iters": 400 if tier == "quick" else 6000}]
+
+    def classify(self, c, o):
+        return "same" if o.get("different") == 0 else "different"
+
+    def key(self, c, o):
+        return "nas-unprotect-conc"
+
+    def coq_case(self, c, o):
+        return ""
+
+    def direct_check(self, c, o):
+        if o.get("different", 1) != 0 or "harness_error" in o or "panic" in o:
+            return "concurrent reception by different UEs changes what is recovered: %s" % (o.get("first") or o)
+        if "NOT-RECOVERED" in str(o.get("sample")):
+            return "the plain message is not recovered: %s" % o.get("sample")
+        return None
+
+
 class C10(L.ShrinkMixin, Check):
     pid = "C10"
     prop_files = ["Properties/C10.v"]
-    streams = [DlHistories(), DlMalformed()]
+    streams = [DlHistories(), DlMalformed(), Concurrent()]
     trusted = ["Coq 8.16.1 kernel incl. vm_compute (no native_compute)", "no axioms (Print Assumptions: closed under the global context)",
                "hand-written models Model/Count.v, Model/NasSec.v (transcriptions of counter.go, tglib/security.go NASDecode, decode.go GetNasPdu's "
                "use of GetSecurityHeaderType) tied by the history streams dl-histories / dl-malformed: octets and both counters after every op",
